@@ -430,7 +430,8 @@ class Run(object):
             if fd.model is None or len(picked) >= max_replays:
                 continue
             unit = fd.unit
-            oc = next((o for o in unit.result.outcomes if getattr(o, 'path_id', None) == fd.verdict.ob.path_id), None)
+            oc = next((o for o in unit.result.outcomes + unit.result.loop_outcomes
+                       if getattr(o, 'path_id', None) == fd.verdict.ob.path_id), None)
             if oc is None:
                 continue
             try:
@@ -472,6 +473,8 @@ class Run(object):
                                     diffs.append('Inv clause %s is false in the post-state observed on the real code' % clause)
                 else:
                     diffs = unit.expected(oc, fd.model, out)
+                    if isinstance(out, list):
+                        out = {'runs': out[:4]}
             except Exception as e:
                 diffs = None
                 out = dict(out)
